@@ -120,6 +120,28 @@ fn run_n<const N: usize>(dag: &Dag, points: &[Vec<f32>], skip: &[bool]) -> (Stri
         for r in regs { if r >= bc.reg_count() { bad.push(format!("kind=register-out-of-bounds {r} >= {}", bc.reg_count())); } }
         k += 2;
     }
+    // ---- history: storage that was serialized as part of ANOTHER function is recycled into a simplification of this one; the
+    // bytecode of the result must be the one a simplification into fresh storage gives (nothing cached may survive the recycling)
+    if N >= 3 {
+        let hist = catch_unwind(AssertUnwindSafe(|| -> Result<(), String> {
+            let mut ctx = fidget_core::context::Context::new();
+            let x = ctx.x(); let small = ctx.add(x, 1.0).unwrap();
+            let da = VmData::<N>::new(&ctx, &[small]).unwrap();
+            let _ = Bytecode::new(&da).map_err(|_| "small function: reserved register")?;
+            let trace = { let mut t = fidget_core::vm::VmTrace::default(); t.resize(f.choice_count(), fidget_core::vm::Choice::Both); t };
+            let mut ws = Default::default();
+            let with_recycled = f.simplify(&trace, da, &mut ws).map_err(|e| format!("simplify into recycled storage: {e}"))?;
+            let mut ws2 = Default::default();
+            let with_fresh = f.simplify(&trace, VmData::<N>::default(), &mut ws2).map_err(|e| format!("simplify into fresh storage: {e}"))?;
+            match (Bytecode::new(with_recycled.data()), Bytecode::new(with_fresh.data())) {
+                (Ok(a), Ok(b)) => if a.data() != b.data() { return Err("bytecode after recycling serialized storage differs from bytecode with fresh storage".into()) },
+                (Err(_), Err(_)) => {}
+                _ => return Err("reserved-register error with one storage only".into()),
+            }
+            Ok(())
+        }));
+        match hist { Ok(Ok(())) => {}, Ok(Err(e)) => bad.push(format!("kind=recycled-storage-changes-bytecode {e}")), Err(_) => bad.push("kind=panic serializing a function simplified into storage recycled from a serialized function".into()) }
+    }
     (text, bad)
 }
 
